@@ -34,6 +34,7 @@ class Recorder(object):
         self.accessor_reads = 0
         self.trackers = 0
         self.budget = budget
+        self.prompt_budget = 3000
         self.sched_seed = sched_seed
         self.period = period
         self.monitor = monitor
@@ -210,6 +211,8 @@ def installed(rec, stdin=None, fake_subprocess=None, prompt_events=True):
 
             def prompt_input(missing, needed_by):
                 rec.prompts += 1
+                if rec.prompts > rec.prompt_budget:
+                    raise core.BudgetExceeded(f'more than {rec.prompt_budget} questions asked')
                 name = missing.name()
                 nb = [f.name() for f in needed_by]
                 rec.emit(('P', name, nb))
@@ -249,6 +252,8 @@ def solver_prompt(rec, answer_fn):
     def prompt(missing, needed_by):
         k = rec.prompts
         rec.prompts += 1
+        if rec.prompts > rec.prompt_budget:
+            raise core.BudgetExceeded(f'more than {rec.prompt_budget} questions asked')
         name = missing.name()
         rec.emit(('P', name, [f.name() for f in needed_by]))
         text = answer_fn(name, missing, k)
